@@ -24,9 +24,10 @@ AutoCorrelationTransitionMatrix::AutoCorrelationTransitionMatrix(std::shared_ptr
     addParameter_(new Parameter(prefix + "lambda" + TextTools::toString(i + 1), p, Parameter::PROP_CONSTRAINT_EX));
   }
 
+  // All lambdas are equal: the stationary distribution is uniform.
   for (size_t i = 0; i < size; ++i)
   {
-    eqFreq_[i] = p;
+    eqFreq_[i] = 1. / static_cast<double>(size);
   }
 }
 
@@ -55,7 +56,7 @@ const Matrix<double>& AutoCorrelationTransitionMatrix::getPij() const
     {
       for (size_t j = 0; j < vAutocorrel_.size(); ++j)
       {
-        pij_(i, j) = (i == j) ? vAutocorrel_[i] : (1 - vAutocorrel_[i]) / static_cast<double>(getNumberOfStates() - 1);
+        pij_(i, j) = Pij(i, j);
       }
     }
 
@@ -77,6 +78,18 @@ void AutoCorrelationTransitionMatrix::fireParameterChanged(const ParameterList& 
   for (size_t i = 0; i < salph; i++)
   {
     vAutocorrel_[i] = getParameterValue("lambda" + TextTools::toString(i + 1));
+  }
+
+  // Stationary distribution: pi_i (1 - lambda_i) is the same for all states.
+  double sum = 0;
+  for (size_t i = 0; i < salph; i++)
+  {
+    eqFreq_[i] = 1. / (1. - vAutocorrel_[i]);
+    sum += eqFreq_[i];
+  }
+  for (size_t i = 0; i < salph; i++)
+  {
+    eqFreq_[i] /= sum;
   }
 
   upToDate_ = false;
